@@ -30,7 +30,56 @@ func (c *Ctx) ord11() {
 	loop := c.acc("ORD-11", rs, "loop-continues-with-c.peek=nil")
 	ret := c.acc("ORD-11", rs, "message-returned⇒its-packet-still-pending")
 	big := c.acc("ORD-11", rs, "parked-BigMessage-cleared-unless-served")
+	entry := c.acc("ORD-11", rs, "entry⇒parked-BigMessage-flushed(discard(Size))-and-cleared-before-the-stream-is-read")
+	disc := c.Fn("ORD-11", "(*Client).discard")
 	for _, p := range c.Paths("ORD-11", rs) {
+		if p.Start == rs.Blocks[0] {
+			// the first use of the stream on this call: skip of the previous packet or the next peek
+			first := p.Index(0, func(e *pathx.Event) bool {
+				return isCallTo(e, pp) || isStd(e, "(*bufio.Reader).Discard") || isStd(e, "(*bufio.Reader).Peek")
+			})
+			if first >= 0 {
+				// 0 unknown, 1 known nil (tested or cleared), 2 known parked
+				st, flushed := 0, false
+				for i := 0; i < first; i++ {
+					e := &p.Events[i]
+					switch {
+					case e.Kind == pathx.KAssume:
+						if cm, ok := cmpOf(e.Val, e.Truth); ok && roleKey(cm.X) == "Client.bigMessage" && pathx.IsNilConst(cm.Y) {
+							if cm.Op == token.EQL {
+								st = 1
+							} else {
+								st = 2
+							}
+						}
+					case e.Kind == pathx.KStore && pathx.RoleOfAddr(e.Addr).Key() == "Client.bigMessage" && pathx.IsNilConst(e.Val):
+						if st == 2 && !flushed {
+							// cleared: the flush must follow before the stream is used
+							st = 3
+						} else {
+							st = 1
+						}
+					case isCallTo(e, disc) && disc != nil && len(e.Args) == 2:
+						if roleKey(e.Args[1]) == "BigMessage.Size" || strings.HasSuffix(roleKey(e.Args[1]), ".Size") {
+							flushed = true
+							if st == 3 {
+								st = 1
+							}
+						}
+					case isCallTo(e, off):
+						st, flushed = 1, true
+					}
+				}
+				switch {
+				case st == 1:
+					entry.pass()
+				case st == 0:
+					entry.fail(p, first, "the stream is used on a new ReadSlices call without c.bigMessage having been examined: the payload of a BigMessage the application did not read is still in the stream and is parsed as packets")
+				default:
+					entry.fail(p, first, "a parked BigMessage is not both flushed (discard of its Size) and cleared before the stream is used (flushed: %v): its payload is parsed as packets, or discarded again on the next call", flushed)
+				}
+			}
+		}
 		// 0 nil, 1 pending, 2 consumed
 		state := 1
 		if p.Start != rs.Blocks[0] {
@@ -117,6 +166,7 @@ func (c *Ctx) ord11() {
 			}
 		}
 	}
+	entry.done(1, "bigMessage is nil, or its Size was discarded and the field cleared, before the first stream operation")
 	skip.done(1, "no path discards len(c.peek) twice without a new peek")
 	stale.done(1, "every peekPacket call starts from c.peek == nil")
 	loop.done(1, "every back edge has c.peek == nil")
